@@ -21,12 +21,14 @@ import (
 	"testing/fstest"
 	"time"
 
+	"github.com/andybalholm/brotli"
+	"github.com/klauspost/compress/zstd"
 	"github.com/valyala/fasthttp"
 	"verif/harness/hlib"
 )
 
 type desc struct {
-	Kind string `json:"kind"` // range | fs
+	Kind string `json:"kind"` // range | fs | sibling
 	R    hlib.B `json:"r,omitempty"`
 	N    int64  `json:"n,omitempty"`
 	// fs
@@ -34,6 +36,9 @@ type desc struct {
 	Size     int    `json:"size,omitempty"`
 	Ranges   bool   `json:"ranges,omitempty"`
 	Compress bool   `json:"compress,omitempty"`
+	Codings  bool   `json:"codings,omitempty"` // CompressBrotli and CompressZstd as well
+	CRoot    bool   `json:"croot,omitempty"`   // CompressRoot set to a second directory (OS filesystem only)
+	Delta    int64  `json:"delta,omitempty"`   // sibling: mtime of the pre-existing .fasthttp.gz minus the file's mtime, seconds
 	Range    hlib.B `json:"range,omitempty"`
 	IMS      hlib.B `json:"ims,omitempty"`
 	AE       hlib.B `json:"ae,omitempty"`
@@ -66,7 +71,7 @@ var mapfs = func() fstest.MapFS {
 	return m
 }()
 
-var osRoot string
+var osRoot, osCompressRoot string
 
 func initOSRoot() {
 	if osRoot != "" {
@@ -86,9 +91,12 @@ func initOSRoot() {
 		}
 	}
 	osRoot = d
+	if osCompressRoot, err = os.MkdirTemp("", "verif_c24_croot_"); err != nil {
+		panic(err)
+	}
 }
 
-type hkey struct{ osfs, ranges, compress bool }
+type hkey struct{ osfs, ranges, compress, codings, croot bool }
 
 var handlers = map[hkey]fasthttp.RequestHandler{}
 
@@ -96,10 +104,13 @@ func handlerFor(k hkey) fasthttp.RequestHandler {
 	if h, ok := handlers[k]; ok {
 		return h
 	}
-	f := &fasthttp.FS{AcceptByteRange: k.ranges, Compress: k.compress, CacheDuration: time.Hour}
+	f := &fasthttp.FS{AcceptByteRange: k.ranges, Compress: k.compress, CompressBrotli: k.codings, CompressZstd: k.codings, CacheDuration: time.Hour}
 	if k.osfs {
 		initOSRoot()
 		f.Root = osRoot
+		if k.croot {
+			f.CompressRoot = osCompressRoot
+		}
 	} else {
 		f.FS = mapfs
 	}
@@ -159,12 +170,28 @@ func randRange(r *rand.Rand, n int) string {
 	}
 }
 
-var aeValues = []string{"", "gzip", "gzip, deflate", "deflate, gzip", "deflate,gzip", "identity", "gzip;q=0", "x-gzip", "br", "gzipx", "br, gzip", "GZIP", "gzip,br", " gzip"}
+var aeValues = []string{"", "gzip", "gzip, deflate", "deflate, gzip", "deflate,gzip", "identity", "gzip;q=0", "x-gzip", "br", "gzipx", "br, gzip", "GZIP", "gzip,br", " gzip",
+	"zstd", "zstd, br, gzip", "gzip, zstd", "br;q=1", "zstdx, gzip"}
+
+var startTime = time.Now()
 
 func imsValues(size int) []string {
 	t := mtimeOf(size).Truncate(time.Second)
 	f := func(d int) string { return string(fasthttp.AppendHTTPDate(nil, t.Add(time.Duration(d)*time.Second))) }
-	return []string{"", f(-1), f(0), f(1), f(-86400), f(86400 * 400), "garbage", "Mon, 02 Jan 2006 15:04:05 GM", strings.ToLower(f(0)), f(0) + " "}
+	return []string{"", f(-1), f(0), f(1), f(-86400), f(86400 * 400), "garbage", "Mon, 02 Jan 2006 15:04:05 GM", strings.ToLower(f(0)), f(0) + " ", f(60), nowMinus1()}
+}
+
+// one second before this run started: later than every file's modification time (the files are years old), earlier
+// than the moment any compressed cache file is produced in this run
+func nowMinus1() string {
+	return string(fasthttp.AppendHTTPDate(nil, startTime.Add(-time.Second)))
+}
+
+// the conditional-request window for compressed representations: at, just after and long after the file's mtime
+func validatorIMS(size int) []string {
+	t := mtimeOf(size).Truncate(time.Second)
+	f := func(d int) string { return string(fasthttp.AppendHTTPDate(nil, t.Add(time.Duration(d)*time.Second))) }
+	return []string{"", f(-1), f(0), f(1), f(60), nowMinus1()}
 }
 
 // ---- corpus / generator ------------------------------------------------------------------
@@ -204,6 +231,33 @@ func corpus() []desc {
 			c = append(c, desc{Kind: "fs", OSFS: osfs, Size: size, Ranges: false, Compress: false, AE: []byte("gzip")})
 		}
 	}
+	// a compressed sibling left over from another version of the file (older, same second, newer)
+	for _, size := range []int{100, 8192} {
+		for _, delta := range []int64{-86400, -2, -1, 1, 3600} {
+			for _, ims := range []string{"", validatorIMS(size)[2], validatorIMS(size)[1]} {
+				c = append(c, desc{Kind: "sibling", Size: size, Delta: delta, IMS: []byte(ims)})
+			}
+		}
+	}
+	// validators of compressed representations: every coding x If-Modified-Since around the file's mtime and just
+	// before "now" x (in-memory fs.FS | OS filesystem | OS filesystem with CompressRoot); GET and HEAD are both
+	// run for every case
+	for _, size := range []int{2, 100, 8192, 8193} {
+		for _, cfg := range []struct{ osfs, croot bool }{{false, false}, {true, false}, {true, true}} {
+			for _, codings := range []bool{false, true} {
+				aes := []string{"gzip", "br"}
+				if codings {
+					aes = []string{"br", "zstd", "gzip", "gzip, zstd"}
+				}
+				for _, ae := range aes {
+					for _, ims := range validatorIMS(size) {
+						c = append(c, desc{Kind: "fs", OSFS: cfg.osfs, CRoot: cfg.croot, Size: size, Ranges: true, Compress: true, Codings: codings,
+							AE: []byte(ae), IMS: []byte(ims)})
+					}
+				}
+			}
+		}
+	}
 	return c
 }
 
@@ -216,7 +270,8 @@ func gen(r *rand.Rand, i int) desc {
 		return desc{Kind: "range", R: []byte(randRange(r, n)), N: int64(n)}
 	}
 	size := hlib.Pick(r, sizes)
-	d := desc{Kind: "fs", OSFS: r.Intn(2) == 0, Size: size, Ranges: r.Intn(5) != 0, Compress: r.Intn(3) == 0}
+	d := desc{Kind: "fs", OSFS: r.Intn(2) == 0, Size: size, Ranges: r.Intn(5) != 0, Compress: r.Intn(2) == 0, Codings: r.Intn(2) == 0}
+	d.CRoot = d.OSFS && r.Intn(2) == 0
 	if r.Intn(4) != 0 {
 		d.Range = []byte(randRange(r, size))
 	}
@@ -253,7 +308,44 @@ type obs struct {
 }
 
 func doRequest(d desc, method string) obs {
-	h := handlerFor(hkey{d.OSFS, d.Ranges, d.Compress})
+	return doRequestOn(handlerFor(hkey{d.OSFS, d.Ranges, d.Compress, d.Codings, d.CRoot && d.OSFS}), d, method)
+}
+
+// runSibling: a fresh directory with the test file and, next to it, a compressed sibling that holds OTHER content
+// (the test content one byte longer) stamped d.Delta seconds after the file's modification time
+func runSibling(d desc) (g, h obs) {
+	dir, err := os.MkdirTemp("", "verif_c24_sib_")
+	if err != nil {
+		panic(err)
+	}
+	defer os.RemoveAll(dir)
+	p := filepath.Join(dir, fileName(d.Size))
+	if err := os.WriteFile(p, content(d.Size), 0o644); err != nil {
+		panic(err)
+	}
+	mt := mtimeOf(d.Size)
+	if err := os.Chtimes(p, mt, mt); err != nil {
+		panic(err)
+	}
+	var zb bytes.Buffer
+	zw := gzip.NewWriter(&zb)
+	zw.Write(content(d.Size + 1))
+	zw.Close()
+	sp := p + fasthttp.FSCompressedFileSuffix
+	if err := os.WriteFile(sp, zb.Bytes(), 0o644); err != nil {
+		panic(err)
+	}
+	st := mt.Add(time.Duration(d.Delta) * time.Second)
+	if err := os.Chtimes(sp, st, st); err != nil {
+		panic(err)
+	}
+	f := &fasthttp.FS{Root: dir, Compress: true, SkipCache: true}
+	hd := f.NewRequestHandler()
+	dd := desc{Size: d.Size, IMS: d.IMS, AE: []byte("gzip")}
+	return doRequestOn(hd, dd, "GET"), doRequestOn(hd, dd, "HEAD")
+}
+
+func doRequestOn(h fasthttp.RequestHandler, d desc, method string) obs {
 	var req fasthttp.Request
 	req.Header.SetMethod(method)
 	req.SetRequestURI("/" + fileName(d.Size))
@@ -302,9 +394,22 @@ func doRequest(d desc, method string) obs {
 	body := append([]byte{}, resp.Body()...)
 	ce := append([]byte{}, resp.Header.Peek("Content-Encoding")...)
 	decoded := hlib.None()
-	if string(ce) == "gzip" && len(body) > 0 {
-		zr, err := gzip.NewReader(bytes.NewReader(body))
-		if err == nil {
+	if len(body) > 0 {
+		var zr io.Reader
+		switch string(ce) {
+		case "gzip":
+			if r, err := gzip.NewReader(bytes.NewReader(body)); err == nil {
+				zr = r
+			}
+		case "br":
+			zr = brotli.NewReader(bytes.NewReader(body))
+		case "zstd":
+			if r, err := zstd.NewReader(bytes.NewReader(body)); err == nil {
+				defer r.Close()
+				zr = r
+			}
+		}
+		if zr != nil {
 			if plain, err := io.ReadAll(zr); err == nil {
 				decoded = hlib.Some(bodyRep(plain))
 			}
@@ -313,7 +418,7 @@ func doRequest(d desc, method string) obs {
 	term := hlib.App("FsObs", hlib.Z(int64(resp.StatusCode())), hlib.Hex(resp.Header.Peek("Content-Range")), hlib.Z(cl), hlib.Hex(ce),
 		hlib.Hex(resp.Header.Peek("Last-Modified")), hlib.Hex(resp.Header.Peek("Accept-Ranges")), hlib.Hex(resp.Header.Peek("Content-Type")),
 		hlib.Hex(resp.Header.Peek("Vary")), bodyRep(body), decoded)
-	return obs{term: term, status: resp.StatusCode(), gz: string(ce) == "gzip"}
+	return obs{term: term, status: resp.StatusCode(), gz: len(ce) > 0}
 }
 
 func run(d desc) hlib.Case {
@@ -329,13 +434,25 @@ func run(d desc) hlib.Case {
 			sig = "range-err:" + strings.SplitN(err.Error(), ":", 2)[0] + ":" + strconv.Itoa(len(d.R))
 		}
 		return hlib.Case{Coq: hlib.App("CRange", hlib.Hex(d.R), hlib.Z(d.N), impl), Kind: "range", Size: len(d.R), Sig: sig + "/" + strconv.FormatInt(d.N, 10)}
+	case "sibling":
+		g, h := runSibling(d)
+		mt := mtimeOf(d.Size).Unix()
+		coq := hlib.App("CSibling", hlib.Z(int64(d.Size)), hlib.Z(mt), hlib.Z(startTime.Unix()), hlib.Z(d.Delta), hlib.Hex(d.IMS), g.term, h.term)
+		c := hlib.Case{Coq: coq, Kind: "sibling-" + strconv.Itoa(g.status), Size: d.Size,
+			Sig: fmt.Sprintf("sibling-%d-%d-%d-%v", d.Size, d.Delta, g.status, len(d.IMS) > 0)}
+		if d.Delta > 0 {
+			// a sibling that is newer than the file is served as it is: known finding
+			c.Key = "stale-compressed-sibling"
+		}
+		return c
 	case "fs":
 		g := doRequest(d, "GET")
 		h := doRequest(d, "HEAD")
 		mt := mtimeOf(d.Size).Unix()
-		coq := hlib.App("CFs", hlib.Bool(d.OSFS), hlib.Z(int64(d.Size)), hlib.Z(mt), hlib.Bool(d.Ranges), hlib.Bool(d.Compress),
+		coq := hlib.App("CFs", hlib.Bool(d.OSFS), hlib.Z(int64(d.Size)), hlib.Z(mt), hlib.Z(startTime.Unix()), hlib.Bool(d.Ranges), hlib.Bool(d.Compress),
+			hlib.Bool(d.Codings), hlib.Bool(d.Codings),
 			hlib.Hex(d.Range), hlib.Hex(d.IMS), hlib.Hex(d.AE), g.term, h.term)
-		sig := fmt.Sprintf("fs-%v-%d-%v-%v-%d-%v-%d-%v-%q", d.OSFS, d.Size, d.Ranges, d.Compress, g.status, g.gz, len(d.Range), len(d.IMS) > 0, string(d.AE))
+		sig := fmt.Sprintf("fs-%v%v-%d-%v-%v%v-%d-%v-%d-%v-%q", d.OSFS, d.CRoot, d.Size, d.Ranges, d.Compress, d.Codings, g.status, g.gz, len(d.Range), len(d.IMS) > 0, string(d.AE))
 		return hlib.Case{Coq: coq, Kind: "fs-" + strconv.Itoa(g.status), Size: d.Size, Sig: sig}
 	}
 	panic("bad kind " + d.Kind)
@@ -345,6 +462,7 @@ func main() {
 	defer func() {
 		if osRoot != "" {
 			os.RemoveAll(osRoot)
+			os.RemoveAll(osCompressRoot)
 		}
 	}()
 	hlib.Main(hlib.Prop[desc]{
@@ -356,7 +474,8 @@ func main() {
 		Rule: "ParseByteRange on every string of a Range grammar (first-last / first- / -suffix with every slot in {empty,0,1,n-1,n,n+1,huge,MaxInt64,MaxInt64+1}, " +
 			"multiple ranges, other units, whitespace, signs, junk) against lengths {-1,0,1,2,100,8191,8192,8193}; complete FS requests (GET and HEAD, in-process RequestCtx, " +
 			"response written and read back) on files of those sizes in an in-memory fs.FS and in a temporary directory, AcceptByteRange on/off, Compress on/off, " +
-			"If-Modified-Since at mtime-1/0/+1 s and malformed, Accept-Encoding variants; then seeded random combinations. " +
+			"If-Modified-Since at mtime-1/0/+1 s and malformed, Accept-Encoding variants; for every coding (gzip, br, zstd) x (fs.FS | OS | OS with CompressRoot) " +
+			"If-Modified-Since at mtime-1s, mtime, mtime+1s, mtime+1min and one second before this run (files are years old, compressed variants are produced now); then seeded random combinations. " +
 			"A case is non-trivial when it reaches a distinct (kind, outcome, file, configuration, header presence) class",
 		Corpus:   corpus,
 		Gen:      gen,
